@@ -265,7 +265,8 @@ def _eval_lbpmap(case):
 
 def _eval_lbp(case):
     import mahotas.features as mf
-    from mahotas.features import lbp as lbpmod
+    import importlib
+    lbpmod = importlib.import_module('mahotas.features.lbp')
     im = np.array(case['data'], dtype=np.float64).reshape(case['shape']).astype(case['dtype'])
     P, R, iz = case['p'], case['radius'], case['iz']
     tags = dict(kind='lbp', P=P, dtype=case['dtype'], iz=iz)
